@@ -21,6 +21,12 @@ import UVerif.Driver.Blk
 
 import UVerif.Driver.Elastic
 
+import UVerif.Driver.ConvFixpnt
+import UVerif.Driver.ConvDD
+import UVerif.Driver.ConvPosInt
+import UVerif.Driver.ConvLns
+import UVerif.Driver.ConvCfloat
+
 namespace UVerif.Driver
 
 /-- family name ↦ handler. One line per family. -/
@@ -54,6 +60,11 @@ def lookupHandler (fam : String) : Option Handler :=
   | "eint" => some eintHandler
   | "edec" => some edecHandler
   | "erat" => some eratHandler
+  | "convfix" => some convfixHandler
+  | "convdd" => some convddHandler
+  | "convpi" => some convpiHandler
+  | "convlns" => some convlnsHandler
+  | "convcf" => some convcfHandler
   | _ => none
 
 end UVerif.Driver
